@@ -1,0 +1,29 @@
+#ifndef KALIGN_VERIF_H
+#define KALIGN_VERIF_H
+/* Verification hooks. Compiled in only with -DKALIGN_VERIF; without it every KV_EVENT expands to nothing. */
+#ifdef KALIGN_VERIF
+#define KV_MERGE_BEGIN 1
+#define KV_MERGE_END 2
+#define KV_NODE_DONE 3
+#define KV_FWD_BEGIN 4
+#define KV_FWD_END 5
+#define KV_BWD_BEGIN 6
+#define KV_BWD_END 7
+#define KV_MEETUP_BEGIN 8
+#define KV_MEETUP_END 9
+#define KV_CANON 10
+#define KV_TASKS 11
+#define KV_PARAM 12
+#define KV_SPLIT_BEGIN 13
+#define KV_SPLIT_END 14
+#ifdef __cplusplus
+extern "C"
+#else
+extern
+#endif
+void (*kalign_verif_cb)(int ev, const void *a, const void *b, int x, int y, int z);
+#define KV_EVENT(ev,a,b,x,y,z) do { if(kalign_verif_cb){ kalign_verif_cb((ev),(a),(b),(x),(y),(z)); } } while (0)
+#else
+#define KV_EVENT(ev,a,b,x,y,z)
+#endif
+#endif
